@@ -48,6 +48,8 @@ func (Engine) Generate(prop, tier string, run int, seed uint64) *kernel.Scenario
 		return genC06(r, tier)
 	case "C03", "C04":
 		return genSettleScenario(r, prop)
+	case "C08":
+		return genC08(r)
 	}
 	return nil
 }
@@ -58,6 +60,8 @@ func (Engine) Execute(t *testing.T, sc *kernel.Scenario, trace bool) *kernel.Res
 		return execC06(t, sc, trace)
 	case "C03", "C04":
 		return execSettle(t, sc, trace)
+	case "C08":
+		return execC08(t, sc, trace)
 	}
 	return &kernel.Result{}
 }
